@@ -185,7 +185,8 @@ fn canon_path(fs: Fs, p: &str) -> String {
 
 fn err_class(e: &str) -> &'static str {
     let l = e.to_lowercase();
-    if l.contains("full") || l.contains("no room") || l.contains("insufficient space") || l.contains("no space") || l.contains("disk space") { "full" }
+    if l.contains("directory full") || l.contains("directory is full") || l.contains("no room in directory") { "dirfull" }
+    else if l.contains("full") || l.contains("no room") || l.contains("insufficient space") || l.contains("no space") || l.contains("disk space") { "full" }
     else if l.contains("duplicate") || l.contains("exists") { "dup" }
     else if l.contains("lock") || l.contains("protect") || l.contains("read only") || l.contains("read-only") || l.contains("access") { "locked" }
     else if l.contains("not found") || l.contains("no file") { "nofile" }
@@ -330,9 +331,19 @@ fn gen_nchunks(fs: Fs, rng: &mut Rng, free: usize, focus: Focus) -> usize {
 }
 
 fn gen_chunk(rng: &mut Rng, len: usize) -> Vec<u8> {
-    match rng.below(4) {
+    match rng.below(6) {
         0 => vec![rng.byte(); len],
         1 => { let mut v = vec![0u8; len]; if len > 0 { v[rng.below(len)] = rng.byte() | 1; } v }
+        2 => {
+            // uniform except one byte at the edge of a physical sector (run-length / uniformity tests of the containers)
+            let c = rng.byte();
+            let mut v = vec![c; len];
+            let edges: Vec<usize> = [0usize, 1, 126, 127, 128, 129, 254, 255, 256, 257, 510, 511, 512, 513, 1022, 1023, 1024].iter().cloned().filter(|e| *e < len).collect();
+            let mut picks = vec![len.saturating_sub(1)];
+            if !edges.is_empty() { picks.push(*rng.pick(&edges)); if rng.chance(40) { picks.push(*rng.pick(&edges)); } }
+            for p in picks { if p < len { v[p] = c ^ (1 + rng.byte() % 255); } }
+            v
+        }
         _ => rng.bytes(len),
     }
 }
@@ -672,14 +683,22 @@ fn apply_op(w: &mut World, op: Op, rng: &mut Rng, free: usize, vd: &mut Verdicts
                     }
                     // C04: free space went down by exactly the requirement where the unit is the chunk
                     let need = need_units(w, &r);
-                    if need != usize::MAX { if let Ok(f2) = w.free() { let ok = free >= f2 && free - f2 == need; vd.v(Focus::C04, ok, "put-consumes-need", &format!("free {}->{} need={}", free, f2, need), &w.hist.clone()); } }
+                    // a directory that had no free slot grows by one block/cluster during the put: that unit is reachable
+                    // from the directory, so it is not a leak (the reader's accounting oracle checks exactly that)
+                    let grow = if fs.has_dirs() && cp.contains('/') { 1 } else { 0 };
+                    if need != usize::MAX { if let Ok(f2) = w.free() { let ok = free >= f2 && (free - f2 == need || free - f2 == need + grow); vd.v(Focus::C04, ok, "put-consumes-need", &format!("free {}->{} need={}", free, f2, need), &w.hist.clone()); } }
                 }
                 Ok(Err(e)) => {
                     // C04: a file that fits must be accepted
                     let need = need_units(w, &r);
                     let cls = err_class(&e);
-                    if !dup && need != usize::MAX && cls == "full" {
-                        let fits = if fs == Fs::Pascal { false } else { need <= free };
+                    // "for which a directory slot exists": DOS 3.x reports a full catalog as DISK FULL, so the catalog
+                    // capacity (7 entries per catalog sector: 15 sectors on 16-sector disks, 12 on 13-sector disks) is checked here
+                    let slot = match fs { Fs::Dos33 => w.files.len() < 105, Fs::Dos32 => w.files.len() < 84, _ => true };
+                    if !dup && need != usize::MAX && cls == "full" && slot {
+                        // a full sub-directory has to grow by one unit first: that is part of the file system's own overhead
+                        let grow = if fs.has_dirs() && cp.contains('/') { 1 } else { 0 };
+                        let fits = if fs == Fs::Pascal { false } else { need + grow <= free };
                         if fits { vd.v(Focus::C04, false, "fits-is-accepted", &format!("need={} free={} refused: {}", need, free, e), &w.hist.clone()); }
                         else { vd.v(Focus::C04, true, "fits-is-accepted", "", &[]); }
                         if need > free { *nontrivial = true; }
@@ -1045,7 +1064,10 @@ fn lean_check_answer(ans: &str, w: &mut World, vd: &mut Verdicts, last: &str) {
     let ok_hist = !hist.iter().any(|h| h.contains("=> err") || h.contains("new_fimg"));
     if let (Some(lf), Ok(sf)) = (free, w.free()) {
         // free-space accounting is claimed for histories of successful operations
-        if ok_hist || lf == sf { vd.v(Focus::C04, lf == sf && noleak, "free-equals-unreachable", &format!("stat.free={} reader.free={} noleak={}", sf, lf, noleak), &hist); }
+        // the count must agree always; "nothing leaks" is claimed for histories of successful operations only
+        // (a refused DOS 3.x put on a full catalog keeps the T/S list sector it reserved: outside C04)
+        if ok_hist { vd.v(Focus::C04, lf == sf && noleak, "free-equals-unreachable", &format!("stat.free={} reader.free={} noleak={}", sf, lf, noleak), &hist); }
+        else { vd.v(Focus::C04, lf == sf, "free-count-agrees-with-reader", &format!("stat.free={} reader.free={}", sf, lf), &hist); }
     }
     let fs = w.fs();
     let lf: BTreeSet<String> = files.iter().map(|s| canon_path(fs, s)).collect();
